@@ -68,7 +68,19 @@ def specOk (ops : List Op) (steps : Array Json) : Bool × String := Id.run do
     i := i + 1
   return (steps.size == ops.length, if steps.size == ops.length then "" else "step-count")
 
+/-- the disconnect notification is part of the registry's atomic step (the model's `disconnected`
+step emits it): nothing else — in particular no new admission of that peer — completes between
+the removal and the delivery of the notification -/
+def handleNotifyOrder (impl : Json) : CaseResult :=
+  let bad := jbool impl "admission_completed_before_notification_delivered"
+  let ok := !bad && !(jbool impl "panic") && jbool impl "notified"
+  { model := mkObj [("admission_completed_before_notification_delivered", false), ("notified", true), ("panic", false)],
+    spec := ok,
+    why := if ok then "" else if bad then "disconnect-notification-delivered-after-the-peer-was-admitted-again"
+      else "disconnect-notification-missing" }
+
 def handle (inp impl : Json) : CaseResult :=
+  if jstr inp "tag" == "notify-order" then handleNotifyOrder impl else
   let ops := (jarr inp "ops").toList.map opOf
   let m := mkObj [("steps", Json.arr (runSnaps init ops).toArray)]
   let (ok, why) := specOk ops (jarr impl "steps")
